@@ -1,4 +1,5 @@
 //@ fn canonical.rs normalize_headers
+//@ hideutf8
 //@ props C08 C11 C02 C17
 //@ ret r
 //@ replace 1 `headers.iter()` => `header_map_entries(headers)`
